@@ -823,7 +823,7 @@ def large_cases(ctx, quick, CNF, S):
 
     # ---- many variables ----
     for ni, N in enumerate([257, 300, 1025] if quick else [255, 256, 257, 258, 300, 1000, 1025]):
-        F = [[1], [-2], [N], [-(N - 1)], [N, -N], [N - 2, N - 2], [255, -(N - 3)], [-256, 254, 256]]
+        F = [[1], [-2], [N], [-(N - 1)], [N, -N], [N - 2, N - 2], [min(255, N), -(N - 3)], [-min(256, N), 254, min(256, N)]]
         if N >= 258:
             F += [[256], [-257], [257, 257], [255, -258], [258, -256, 257]]
         style = STYLES[ni % 3]
